@@ -18,11 +18,12 @@ import (
 
 // Run is the entry point for C02.
 func Run(ctx *core.Ctx) {
-	ctx.Rule = "cases: (a) the interaction families of SoyExecFamilies.tla - every (enclosing block x binder x use site x shadowing) program, model-checked on the reference interpreter and on four named deviations (each must change some outcome), replayed on the real code; (b) whole bundles (2-4 templates over 2 namespaces/files, nesting depth<=3, names drawn from an 8-name pool so params, lets and loop variables collide) with data satisfying the declared params; each is rendered by the real code and TLC runs the reference interpreter SoyExec on it; non-trivial = contains a binder (let/foreach/param) or a call; distinct by source text + data"
+	ctx.Rule = "cases: (a) the interaction families of SoyExecFamilies.tla - every (enclosing block x binder x use site x shadowing) program, model-checked on the reference interpreter and on four named deviations (each must change some outcome), replayed on the real code; (b) recursion families (direct, mutual, through data=all / data=expr, inside loops with content params) on a decreasing argument 0..5; (c) whole bundles (2-4 templates over 2 namespaces/files, nesting depth<=3, names drawn from an 8-name pool so params, lets and loop variables collide) with data satisfying the declared params; each is rendered by the real code and TLC runs the reference interpreter SoyExec on it; non-trivial = contains a binder (let/foreach/param) or a call; distinct by source text + data"
 	ctx.Assumptions = append(ctx.Assumptions,
 		"oracle = SoyExec.tla + SoyExpr.tla; programs whose run reaches an Unspec expression are not judged",
 		"failing renders are compared on error/no-error only")
 	Families(ctx)
+	RecursionFamily(ctx)
 	RandomTraces(ctx, ctx.Pick(1500, 30000))
 }
 
